@@ -157,7 +157,7 @@ class Serializable(ABC):
         """Try set target.attr from kwargs matching keys."""
         keys_ = (attr,) if not keys else keys
         ob = Serializable._try_get(*keys_, **kwargs)
-        setattr(target, attr, ob) if ob else None
+        setattr(target, attr, ob) if ob is not None else None
 
     @staticmethod
     def _try_get(*keys: str, **kwargs) -> Any:
@@ -290,13 +290,13 @@ class FuncResult(Timeable, Serializable):
         """Deserialize a function result."""
         func = Serializable._load(FuncResult(name), **kwargs)
         matrix = FuncResult._try_get('relation', 'matrix', **kwargs)
-        if matrix:
+        if matrix is not None:
             func.relation = Relation(func.variables, decode(matrix))
         choices = FuncResult._try_get('choices', **kwargs)
         if choices:
             func.choices = Choices(choices)
         bound = FuncResult._try_get('bound', **kwargs)
-        if bound:
+        if bound is not None:
             func.bound = Bound(bound)
         return func
 
